@@ -350,6 +350,12 @@ pub fn replay(case: &Value) -> Option<String> {
             let d = long_doc(&unit, case["pad"].as_u64()? as usize);
             check_strings(&observer(enc), &d, &cuts).0
         }
+        "long-tail" => {
+            let unit = unhex(case["unit"].as_str()?);
+            let cuts: Vec<usize> = serde_json::from_value(case["cuts"].clone()).ok()?;
+            let d = long_tail_doc(&unit, case["n"].as_u64()? as usize);
+            check_strings(&observer(enc), &d, &cuts).0
+        }
         "insert" => check_insert(enc, case["content"].as_str()?, case["html"].as_bool()?),
         "bailout-insert" => check_bail_out_insert(enc, case["content"].as_str()?, case["html"].as_bool()?),
         "meta" => {
@@ -367,6 +373,15 @@ fn long_doc(unit: &[u8], pad: usize) -> Doc {
     for _ in 0..1100 {
         t.extend_from_slice(unit);
     }
+    doc(b"", b"v", &t, b"", b"c")
+}
+
+fn long_tail_doc(unit: &[u8], n: usize) -> Doc {
+    // two ASCII bytes, one unit, then an ASCII run as long as the decoder's internal buffer: the
+    // piece after a cut inside the unit is (nearly) all ASCII
+    let mut t = b"ab".to_vec();
+    t.extend_from_slice(unit);
+    t.extend(std::iter::repeat(b'q').take(n));
     doc(b"", b"v", &t, b"", b"c")
 }
 
@@ -496,6 +511,36 @@ pub fn run_check(ctx: &Ctx) -> i32 {
         }
     });
     ctx.level_done("(a') 1100-unit text runs x 4 paddings x cuts around the 1 KiB decoder buffer boundary");
+    par_for(encs.len(), 1, |ei| {
+        let enc = encs[ei];
+        let p = observer(enc);
+        let us = units(enc);
+        for u in us.iter().filter(|u| u.len() >= 2 && u.len() <= 4 && !u.contains(&0xFF) && !u.contains(&0xFE)).take(if quick { 4 } else { 12 }) {
+            for n in [1000usize, 1023, 1024, 1025, 1100, 2100] {
+                let d = long_tail_doc(u, n);
+                let base = d.text.0;
+                let mut cutsets: Vec<Vec<usize>> = vec![vec![]];
+                for i in 1..u.len() {
+                    cutsets.push(vec![base + 2 + i]);
+                    cutsets.push(vec![base + 1, base + 2 + i]);
+                    if base + 2 + u.len() + 1024 < d.bytes.len() {
+                        cutsets.push(vec![base + 2 + i, base + 2 + u.len() + 1024]);
+                    }
+                }
+                for cuts in &cutsets {
+                    let (m, calls) = check_strings(&p, &d, cuts);
+                    ctx.exec(calls);
+                    ctx.validated(1);
+                    if let Some(msg) = m {
+                        let case = json!({"kind": "long-tail", "encoding": enc.name(), "unit": hex(u), "n": n, "cuts": cuts});
+                        let c2 = case.clone();
+                        ctx.violation(msg, case, &|| replay(&c2));
+                    }
+                }
+            }
+        }
+    });
+    ctx.level_done("(a'') a multi-byte unit cut at every inner byte, followed by an ASCII run of 1000..2100 bytes (the piece after the cut is as long as the decoder's buffer)");
     // (b) inserted content
     let contents = ["\u{e9}", "\u{20ac}", "\u{1f600}", "\u{30a2}x", "a<b>&\"c", "\u{fffd}", "\u{416}\u{1f600}\u{e9}"];
     for enc in &encs {
